@@ -111,6 +111,77 @@ pub fn replay(o: &Opts) {
                     }
                 }
             }
+            "wire" => {
+                let bytes_of = |v: &Value| -> Vec<u8> { v.as_array().unwrap().iter().map(|x| x.as_u64().unwrap() as u8).collect() };
+                match c["what"].as_str().unwrap() {
+                    "pid" => {
+                        let (sbn, esi) = (c["sbn"].as_u64().unwrap() as u8, c["esi"].as_u64().unwrap() as u32);
+                        let want = bytes_of(&c["bytes"]);
+                        let r = catch(move || {
+                            let id = raptorq::PayloadId::new(sbn, esi);
+                            let ser = id.serialize();
+                            let de = raptorq::PayloadId::deserialize(&ser);
+                            (ser, de.source_block_number(), de.encoding_symbol_id(), id.source_block_number(), id.encoding_symbol_id())
+                        });
+                        match r {
+                            Ok((ser, dsbn, desi, asbn, aesi)) => {
+                                got = json!({"ser": ser.to_vec(), "de": [dsbn, desi]});
+                                if ser.to_vec() != want { mism.push("payload id bytes differ from RFC 6330 3.2".into()); }
+                                if (dsbn, desi) != (sbn, esi) || (asbn, aesi) != (sbn, esi) { mism.push("payload id does not round-trip".into()); }
+                            }
+                            Err(m) => mism.push(format!("panic: {m}")),
+                        }
+                    }
+                    "pidbuf" => {
+                        let buf = bytes_of(&c["buf"]);
+                        let arr = [buf[0], buf[1], buf[2], buf[3]];
+                        let id = raptorq::PayloadId::deserialize(&arr);
+                        got = json!({"de": [id.source_block_number(), id.encoding_symbol_id()], "reser": id.serialize().to_vec()});
+                        if id.source_block_number() as u64 != c["sbn"].as_u64().unwrap() || id.encoding_symbol_id() as u64 != c["esi"].as_u64().unwrap() {
+                            mism.push("payload id parsed differently from RFC 6330 3.2".into());
+                        }
+                        if id.serialize() != arr { mism.push("payload id re-serialisation differs".into()); }
+                    }
+                    "otibuf" => {
+                        let buf = bytes_of(&c["buf"]);
+                        let mut arr = [0u8; 12];
+                        arr.copy_from_slice(&buf);
+                        let o = Oti::deserialize(&arr);
+                        got = json!({"de": oti_json(&o), "reser": o.serialize().to_vec()});
+                        if o.transfer_length() != lv(&c["f"]) || o.symbol_size() as u64 != c["t"].as_u64().unwrap()
+                            || o.source_blocks() as u64 != c["z"].as_u64().unwrap() || o.sub_blocks() as u64 != c["n"].as_u64().unwrap()
+                            || o.symbol_alignment() as u64 != c["al"].as_u64().unwrap() {
+                            mism.push("OTI parsed differently from RFC 6330 3.3.2/3.3.3".into());
+                        }
+                        if o.serialize().to_vec() != bytes_of(&c["reser"]) { mism.push("OTI re-serialisation differs (reserved byte excepted)".into()); }
+                        let again = Oti::deserialize(&o.serialize());
+                        if again != o { mism.push("OTI does not round-trip".into()); }
+                    }
+                    "otinew" => {
+                        let (f, t, z, n, al) = (lv(&c["f"]), c["t"].as_u64().unwrap() as u16, c["z"].as_u64().unwrap() as u8,
+                                                c["n"].as_u64().unwrap() as u16, c["al"].as_u64().unwrap() as u8);
+                        match try_new(f, t, z, n, al) {
+                            Ok(o) => {
+                                got = json!({"ser": o.serialize().to_vec()});
+                                if o.serialize().to_vec() != bytes_of(&c["bytes"]) { mism.push("OTI bytes differ from RFC 6330 3.3.2/3.3.3".into()); }
+                                if Oti::deserialize(&o.serialize()) != o { mism.push("OTI does not round-trip".into()); }
+                            }
+                            Err(m) => mism.push(format!("constructor refused an admissible OTI: {m}")),
+                        }
+                    }
+                    "pkt" => {
+                        let (sbn, esi) = (c["sbn"].as_u64().unwrap() as u8, c["esi"].as_u64().unwrap() as u32);
+                        let payload = bytes_of(&c["payload"]);
+                        let pk = raptorq::EncodingPacket::new(raptorq::PayloadId::new(sbn, esi), payload.clone());
+                        let ser = pk.serialize();
+                        got = json!({"ser": ser});
+                        if ser != bytes_of(&c["bytes"]) { mism.push("packet bytes differ from RFC 6330 4.4.2".into()); }
+                        let de = raptorq::EncodingPacket::deserialize(&ser);
+                        if de != pk || de.data() != &payload[..] || de.payload_id().encoding_symbol_id() != esi { mism.push("packet does not round-trip".into()); }
+                    }
+                    other => panic!("unknown wire case {other}"),
+                }
+            }
             other => panic!("unknown case kind {other}"),
         }
         if !mism.is_empty() {
@@ -188,6 +259,60 @@ pub fn log(o: &Opts) {
                     Err(m) => { ev["res"] = json!("panic"); ev["msg"] = json!(m); }
                 }
                 tr.emit(ev);
+            }
+        }
+        "wire" => {
+            for i in 0..n {
+                match i % 6 {
+                    0 => {
+                        let (sbn, esi): (u8, u32) = (rng.random(), rng.random_range(0..1 << 24));
+                        let id = raptorq::PayloadId::new(sbn, esi);
+                        let ser = id.serialize();
+                        let de = raptorq::PayloadId::deserialize(&ser);
+                        tr.emit(json!({"ev":"wire","what":"pid","sbn":sbn,"esi":esi,"ser":ser.to_vec(),
+                                       "de":[de.source_block_number(), de.encoding_symbol_id()]}));
+                    }
+                    1 => {
+                        let buf: [u8; 4] = rng.random();
+                        let id = raptorq::PayloadId::deserialize(&buf);
+                        tr.emit(json!({"ev":"wire","what":"pidbuf","buf":buf.to_vec(),
+                                       "de":[id.source_block_number(), id.encoding_symbol_id()],"reser":id.serialize().to_vec()}));
+                    }
+                    2 => {
+                        // a valid OTI through the constructor
+                        let t: u16 = rng.random_range(1..=65535);
+                        let z: u8 = rng.random_range(1..=255);
+                        let f: u64 = rng.random_range(1..=(56403u64 * z as u64 * t as u64).min(942574504275));
+                        let n: u16 = rng.random();
+                        let o = Oti::new(f, t, z, n, 1);
+                        let de = Oti::deserialize(&o.serialize());
+                        tr.emit(json!({"ev":"wire","what":"oti","f":limbs(f),"t":t,"z":z,"n":n,"al":1,
+                                       "ser":o.serialize().to_vec(),"de":oti_json(&de)}));
+                    }
+                    3 => {
+                        let buf: [u8; 12] = rng.random();
+                        let o = Oti::deserialize(&buf);
+                        tr.emit(json!({"ev":"wire","what":"otibuf","buf":buf.to_vec(),"de":oti_json(&o),"reser":o.serialize().to_vec()}));
+                    }
+                    4 => {
+                        let (sbn, esi): (u8, u32) = (rng.random(), rng.random_range(0..1 << 24));
+                        let len = rng.random_range(0..70usize);
+                        let payload: Vec<u8> = (0..len).map(|_| rng.random()).collect();
+                        let pk = raptorq::EncodingPacket::new(raptorq::PayloadId::new(sbn, esi), payload.clone());
+                        let ser = pk.serialize();
+                        let de = raptorq::EncodingPacket::deserialize(&ser);
+                        tr.emit(json!({"ev":"wire","what":"pkt","sbn":sbn,"esi":esi,"payload":payload,"ser":ser,
+                                       "de":[de.payload_id().source_block_number(), de.payload_id().encoding_symbol_id(), de.data()]}));
+                    }
+                    _ => {
+                        let len = rng.random_range(4..74usize);
+                        let buf: Vec<u8> = (0..len).map(|_| rng.random()).collect();
+                        let de = raptorq::EncodingPacket::deserialize(&buf);
+                        tr.emit(json!({"ev":"wire","what":"pktbuf","buf":buf,
+                                       "de":[de.payload_id().source_block_number(), de.payload_id().encoding_symbol_id(), de.data()],
+                                       "reser":de.serialize()}));
+                    }
+                }
             }
         }
         other => panic!("unknown objlog kind {other}"),
